@@ -34,6 +34,20 @@ def em_read(path):
     data = flat.reshape((z, y, x)).transpose(2, 1, 0)  # -> [x,y,z]
     return {"dtype": np.dtype(EM_TYPES[tcode]), "dims": (x, y, z), "data": data, "nbytes": len(raw), "machine": machine}
 
+def em_motl_mismatch(path, df):
+    """None if the EM motl file at path holds the particle table df (float32, 20 canonical fields, row order), else what differs."""
+    import os
+    if not os.path.isfile(path):
+        return "file_missing"
+    try:
+        em = em_read(path)
+    except Exception as e:
+        return "not_valid_em"
+    if em["dims"] != (20, len(df), 1):
+        return "dims"
+    want = df[MOTL_COLUMNS].to_numpy(dtype=np.float32)
+    return None if np.array_equal(em["data"][:, :, 0].T, np.nan_to_num(want)) else "values"
+
 
 MRC_MODES = {0: np.int8, 1: np.int16, 2: np.float32, 6: np.uint16, 12: np.float16}
 
